@@ -362,6 +362,7 @@ impl EcdhPublicParams {
         match curve {
             ECCCurve::Curve25519Legacy => {
                 ensure_eq!(p.len(), 33, "invalid public key length");
+                ensure_eq!(p.as_ref()[0], 0x40, "invalid public key (prefix)");
                 // public part of the ephemeral key (removes 0x40 prefix)
                 let public_key = &p.as_ref()[1..];
 
